@@ -542,6 +542,43 @@ def run(eng, R):
         R.ob("E8", "FitYamlReader:constraints", "_fit_object._fit_param_constraints = [" not in src or "_fit_object._on_constraint_change()" in src, (fr.file, fr.lineno),
              "the reader replaces the fit's constraint list without invalidating the constraint node")
 
+    # ---------------------------------------------------------------- E15: results re-injected from a file take precedence in the result dictionary
+    with R.guard("E15: re-injected results take precedence in the result dictio"):
+        R.rule("E15", "get_result_dict (what a second save writes) reads the minimiser's own asymmetric uncertainties only when no results were re-injected from a file: a "
+                      "reloaded fit has them in _loaded_result_dict only, its own minimiser never computed any", 1)
+        gr = p.find_class("FitBase").find_method("get_result_dict")
+        reads = [a for a in ast.walk(gr.node) if isinstance(a, ast.Attribute) and a.attr == "asymmetric_fit_parameter_errors_if_calculated" and isinstance(a.ctx, ast.Load)]
+        if not reads:
+            raise AnalysisError("FitBase.get_result_dict: read of the minimiser's asymmetric errors not found")
+        from ..canon import negate, positive
+
+        def _about_loaded(d):
+            # `L is None` or `L['asymmetric_parameter_errors'] is None` (L the re-injected results, possibly through a local)
+            if not (isinstance(d, ast.Compare) and len(d.ops) == 1 and isinstance(d.ops[0], ast.Is) and isinstance(d.comparators[0], ast.Constant) and d.comparators[0].value is None):
+                return None
+            left = common.resolve_local(gr.node, d.left)
+            if isinstance(left, ast.IfExp) and isinstance(left.body, ast.Constant) and left.body.value is None:
+                # `(None if L is None else L['..']) is None`  ==  `L is None or L['..'] is None`
+                k1 = _about_loaded(left.test)
+                k2 = _about_loaded(ast.Compare(left=left.orelse, ops=[ast.Is()], comparators=[ast.Constant(value=None)]))
+                return "dict" if k1 == "dict" and k2 is not None else None
+            if isinstance(left, ast.Subscript) and common.const_str(left.slice) == "asymmetric_parameter_errors":
+                left, kind = common.resolve_local(gr.node, left.value), "entry"
+            else:
+                kind = "dict"
+            return kind if " ".join(ast.unparse(left).split()) == "self._loaded_result_dict" else None
+
+        for a in reads:
+            ok = False
+            for t, pol in common.guard_conditions(gr.node, a):
+                t = positive(t) if pol else negate(positive(t))
+                kinds = [_about_loaded(d) for d in (t.values if isinstance(t, ast.BoolOp) and isinstance(t.op, ast.Or) else [t])]
+                ok = ok or ("dict" in kinds and None not in kinds)
+            R.ob("E15", "FitBase.get_result_dict:asymmetric errors", ok, (gr.file, a.lineno),
+                 "get_result_dict takes the asymmetric uncertainties from the fit's own minimiser although results re-injected from a file may be present: a reloaded fit "
+                 "reports (and a second save writes) None instead of the stored values")
+
+
 def _classes(p):
     out = []
     for m in p.modules.values():
